@@ -2,6 +2,7 @@ SPECIFICATION FamSpec
 CONSTANTS
   MinN = 4
   MaxN = 5
+INVARIANT KeysAreContributors
 INVARIANT Once
 INVARIANT BasesFirst
 INVARIANT ReportIffCyclic
